@@ -47,7 +47,8 @@ def scope(ctx):
 def run(ctx):
     size_components_kept_in_double(ctx, "C09")
     prerun_walk_visits_every_cgroup(ctx)
-    from .C15 import rate_definitions, psi_tables, memory_protection_scheme
+    from .C15 import rate_definitions, psi_tables, memory_protection_scheme, refresh_archives_one_tick
+    refresh_archives_one_tick(ctx)         # io-cost / pgscan rates and the moving average rank by deltas over exactly one tick
     memory_protection_scheme(ctx)          # kill_by_memory_size_or_growth and kill_by_swap_usage rank by usage - protection
     rate_definitions(ctx)
     psi_tables(ctx)          # kill_by_pressure ranks by what the PSI reader hands out
